@@ -6,6 +6,7 @@ import ProfiVerif.Model.Station
 import ProfiVerif.Lemmas.StationTrace
 import ProfiVerif.Lemmas.AppOrder
 import ProfiVerif.Lemmas.AppVisit
+import ProfiVerif.Lemmas.AppFrame
 
 namespace PV.C15
 open PV
@@ -903,5 +904,54 @@ example : ∃ (w1 w2 : World) (log l : List AppCall),
   · rw [hdl]; decide
   · cases h
   · exact h
+
+
+/-! ## Scheduling order over whole histories (`ask_order_history`)
+
+Helper lemmas: `Lemmas/AppFrame.lean` (`poll_keep`: no handler but the application loop moves
+`next_application` — except the station reset; `walkR`, `turn_run`).  The station reset
+(`*self = Self::new(..)`) happens in `set_offline` AND inside a poll, in the duplicate-address detection
+of `do_listen_token`; it puts the turn back to application 0.  Hence the rule for the complete callback
+log of ANY history carries the alternative "or application 0". -/
+
+/-- **`ask_order`** (whole histories).  For every parameter set, every set of applications and EVERY
+sequence of `poll` / `set_online` / `set_offline` calls from a fresh station: the run does not panic, the
+first callback goes to application 0, and for any two adjacent callbacks `r1, r2` of the complete log —
+however many polls, token visits, lost tokens, ring re-entries lie between them — `r2` goes to the
+application whose turn it is after `r1` (`(i+1) % n` after a decline of `i`; `i` itself after a telegram
+sent by / a reply or time-out delivered to `i`), or to application 0 (station reset in between). -/
+theorem ask_order_history (p : Params) (apps : Apps) (h1 : p.address < p.hsa) (h2 : p.hsa ≤ 126)
+    (hs : ScriptsOk apps) (calls : List ApiCall) :
+    ∃ w log, World.runLog { s := Station.new p, apps := apps, rx := [] } calls = some (w, log) ∧
+      (∀ r post, log = r :: post → r.app = 0) ∧
+      (∀ pre r1 r2 post, log = pre ++ r1 :: r2 :: post → r2.app = nextIdx apps.length r1 ∨ r2.app = 0) := by
+  obtain ⟨w, log, hr, -⟩ := runLog_total calls { s := Station.new p, apps := apps, rx := [] } (inv_init p apps h1 h2 hs)
+  obtain ⟨ha1, ha2⟩ := walkR_adjacent _ log _ _ (turn_run calls _ w log hr).1
+  refine ⟨w, log, hr, ?_, ha2⟩
+  intro r post he
+  rcases ha1 r post he with h | h <;> exact h
+
+/-- The same for an arbitrary start state, conditional on the run being regular; with the turn at the end. -/
+theorem ask_order_history' (calls : List ApiCall) (w w' : World) (log : List AppCall)
+    (hr : w.runLog calls = some (w', log)) :
+    walkR w.apps.length w.s.nextApp log w'.s.nextApp ∧
+    (∀ pre r1 r2 post, log = pre ++ r1 :: r2 :: post → r2.app = nextIdx w.apps.length r1 ∨ r2.app = 0) :=
+  ⟨(turn_run calls w w' log hr).1, (walkR_adjacent _ log _ _ (turn_run calls w w' log hr).1).2⟩
+
+/-- Non-vacuity of `ask_order_history`: the witness visit continued by `set_offline`, going online again
+and a poll; five callbacks, adjacent ones obey the rule. -/
+example : ∃ w, World.runLog orderWorld (orderCalls ++ [.setOffline, .setOnline, .poll 200000 false []]) = some (w, orderLog) ∧
+    w.s.nextApp = 0 := by
+  have : (match World.runLog orderWorld (orderCalls ++ [.setOffline, .setOnline, .poll 200000 false []]) with
+      | some (w, log) => (log, w.s.nextApp)
+      | none => ([], 99)) = (orderLog, 0) := by
+    set_option maxRecDepth 100000 in decide
+  cases hr : World.runLog orderWorld (orderCalls ++ [.setOffline, .setOnline, .poll 200000 false []]) with
+  | none => rw [hr] at this; simp at this
+  | some x =>
+    obtain ⟨w, log⟩ := x
+    rw [hr] at this
+    simp only [Prod.mk.injEq] at this
+    exact ⟨w, by rw [this.1], this.2⟩
 
 end PV.C15
